@@ -376,6 +376,7 @@ pub fn dispatch(campaign: &str, c: &mut Choices, log: &mut CaseLog) -> Option<Ca
         "text" => Some(case_text(c, log)),
         "wellformed" => Some(case_wellformed(c, log)),
         "probe" => Some(case_probe(c, log)),
+        "fuzz_schema" => Some(crate::fuzzglue::case_schema_text(c, log)),
         _ => None,
     }
 }
@@ -391,11 +392,12 @@ pub fn run(mut chk: Check) -> ! {
         let inputs: Vec<Vec<u64>> = (0..PROBES.len() as u64).map(|i| vec![i]).collect();
         chk.explicit("probe", &inputs, case_probe);
     }
-    let n = chk.scale(30_000, 2_000_000);
+    let n = chk.scale(500_000, 3_000_000);
     chk.campaign(CampaignCfg::new("mutated", n), case_mutated);
     chk.campaign(CampaignCfg::new("json", n / 3).len(0, 300), case_json);
     chk.campaign(CampaignCfg::new("text", n / 3).len(0, 300), case_text);
     chk.campaign(CampaignCfg::new("wellformed", n / 3), case_wellformed);
     chk.require_label("mutated:mutant_accepted", "mutated:case", 5.0);
+    chk.fuzz_stage("c11_schema", "fuzz_schema", 2_000_000, 1024, &crate::fuzzglue::seeds_schema(), crate::fuzzglue::case_schema_text);
     chk.finish()
 }
